@@ -469,6 +469,12 @@ func (vc *VC) symsOf(t *Term, limit int) map[string]bool {
 func (vc *VC) BuildQueryRel(o *Obligation, goal *Term, extra []*Term, light bool, depth int) *Query {
 	allDefs := false
 	broad := vc.Broad
+	big := false
+	if depth >= 2000 {
+		// last resort: goal-directed instantiation with a three times larger instance budget
+		big = true
+		depth -= 2000
+	}
 	if depth >= 1000 {
 		broad = true
 		depth -= 1000
@@ -802,6 +808,13 @@ func (vc *VC) BuildQueryRel(o *Obligation, goal *Term, extra []*Term, light bool
 			ninst++
 		}
 	}
+	maxInst := 3000
+	if big {
+		maxInst = 9000
+	}
+	if v := os.Getenv("GOVC_MAXINST"); v != "" {
+		fmt.Sscan(v, &maxInst)
+	}
 	gen0 := map[*Term]bool{}
 	{
 		seen0 := map[*Term]bool{}
@@ -823,6 +836,32 @@ func (vc *VC) BuildQueryRel(o *Obligation, goal *Term, extra []*Term, light bool
 		dseen := map[*Term]bool{}
 		dincl := map[int]bool{}
 		dwork := []*Term{o.Guard, neg}
+		// ground assumptions that talk about a heap component the goal itself reads (e.g. the instance of a lock
+		// invariant that relates it to a ghost token) also drive instantiation
+		goalComps := map[string]bool{}
+		Walk(neg, map[*Term]bool{}, func(x *Term) {
+			if x.Op == "const" && strings.HasPrefix(x.Name, "H.") {
+				goalComps[x.Name] = true
+			}
+		})
+		if len(goalComps) > 0 {
+			nAdd := 0
+			for i := range facts {
+				if !addedGround[i] || nAdd >= 40 {
+					continue
+				}
+				hit := false
+				Walk(facts[i].Body, map[*Term]bool{}, func(x *Term) {
+					if x.Op == "const" && goalComps[x.Name] {
+						hit = true
+					}
+				})
+				if hit {
+					dwork = append(dwork, facts[i].Body)
+					nAdd++
+				}
+			}
+		}
 		for len(dwork) > 0 {
 			t := dwork[len(dwork)-1]
 			dwork = dwork[:len(dwork)-1]
@@ -880,7 +919,7 @@ func (vc *VC) BuildQueryRel(o *Obligation, goal *Term, extra []*Term, light bool
 			}
 			lastLow, lastBefore = prio(f) == 2, ninst
 			preciseOnly = f.Label == "ref-bound"
-			if ninst > 3000 {
+			if ninst > maxInst {
 				break
 			}
 			if prio(f) == 2 {
@@ -1032,6 +1071,18 @@ func (vc *VC) BuildQueryRel(o *Obligation, goal *Term, extra []*Term, light bool
 				}
 			}
 		}
+		if round == 0 && big {
+			// linear (base+v) patterns may also match the index terms produced by the first round of instances
+			// (one extra generation: e.g. an element shifted by copy, then the invariant of the old array), never later ones
+			seen1 := map[*Term]bool{}
+			for _, a := range newAsserts {
+				Walk(a, seen1, func(x *Term) {
+					if x.Op == "select" {
+						gen0[x.Args[1]] = true
+					}
+				})
+			}
+		}
 		for _, a := range newAsserts {
 			asserts = append(asserts, a)
 			work = append(work, a)
@@ -1044,7 +1095,7 @@ func (vc *VC) BuildQueryRel(o *Obligation, goal *Term, extra []*Term, light bool
 			pull(t)
 		}
 		drivers = append(drivers, asserts[nb:]...)
-		if ninst > 3000 {
+		if ninst > maxInst {
 			break
 		}
 	}
